@@ -32,23 +32,31 @@ Section Ramp.
 End Ramp.
 
 (* ------------------------------------------------------------------ index_of *)
-Lemma index_of_none x l : index_of x l = None <-> ~ In x l.
+Lemma slot_is_spec x y : slot_is x y = true <-> y = Some x.
+Proof.
+  destruct y as [v|]; cbn; [|split; discriminate].
+  destruct (Z.eqb_spec x v) as [->|Hne]; split; intros H; try reflexivity; try discriminate; congruence.
+Qed.
+
+Lemma index_of_none x l : index_of x l = None <-> ~ In (Some x) l.
 Proof.
   induction l as [|y r IH]; cbn.
   - split; [intros _ []|reflexivity].
-  - destruct (Z.eqb_spec x y) as [->|Hne].
-    + split; [discriminate|intros H; exfalso; apply H; left; reflexivity].
-    + destruct (index_of x r) eqn:E; cbn.
+  - destruct (slot_is x y) eqn:Es.
+    + apply slot_is_spec in Es. subst y. split; [discriminate|intros H; exfalso; apply H; left; reflexivity].
+    + assert (Hne : y <> Some x) by (intros ->; rewrite (proj2 (slot_is_spec x (Some x)) eq_refl) in Es; discriminate).
+      destruct (index_of x r) eqn:E; cbn.
       * split; [discriminate|]. intros H. exfalso. apply H. right.
-        destruct (in_dec Z.eq_dec x r) as [Hi|Hn]; [exact Hi|]. apply IH in Hn. discriminate.
+        destruct (in_dec (fun a b : option Z => ltac:(decide equality; apply Z.eq_dec)) (Some x) r) as [Hi|Hn]; [exact Hi|].
+        apply IH in Hn. discriminate.
       * split; [|reflexivity]. intros _ [Hy|Hr]; [congruence|]. apply (proj1 IH); [reflexivity|exact Hr].
 Qed.
 
-Lemma index_of_some x l i : index_of x l = Some i -> nth_error l i = Some x /\ (i < length l)%nat.
+Lemma index_of_some x l i : index_of x l = Some i -> nth_error l i = Some (Some x) /\ (i < length l)%nat.
 Proof.
   revert i. induction l as [|y r IH]; cbn; intros i H; [discriminate|].
-  destruct (Z.eqb_spec x y) as [->|Hne].
-  - injection H as <-. cbn. split; [reflexivity|lia].
+  destruct (slot_is x y) eqn:Es.
+  - apply slot_is_spec in Es. subst y. injection H as <-. cbn. split; [reflexivity|lia].
   - destruct (index_of x r) as [j|] eqn:E; cbn in H; [|discriminate].
     injection H as <-. destruct (IH j eq_refl) as [Hn Hl]. cbn. split; [exact Hn|lia].
 Qed.
@@ -56,16 +64,16 @@ Qed.
 Lemma index_of_app_l x l t i : index_of x l = Some i -> index_of x (l ++ t) = Some i.
 Proof.
   revert i. induction l as [|y r IH]; cbn; intros i H; [discriminate|].
-  destruct (Z.eqb x y); [exact H|].
+  destruct (slot_is x y); [exact H|].
   destruct (index_of x r) as [j|] eqn:E; cbn in H; [|discriminate].
   rewrite (IH j eq_refl). exact H.
 Qed.
 
-Lemma index_of_app_new x l : index_of x l = None -> index_of x (l ++ [x]) = Some (length l).
+Lemma index_of_app_new x l : index_of x l = None -> index_of x (l ++ [Some x]) = Some (length l).
 Proof.
   induction l as [|y r IH]; cbn; intros H.
   - rewrite Z.eqb_refl. reflexivity.
-  - destruct (Z.eqb x y); [discriminate|].
+  - destruct (slot_is x y); [discriminate|].
     destruct (index_of x r) eqn:E; cbn in H; [discriminate|]. rewrite (IH eq_refl). reflexivity.
 Qed.
 
@@ -86,46 +94,67 @@ Section Inv.
   Lemma wf_init size : (0 < size)%nat -> wf (t_init size start step).
   Proof. intros H. split; [constructor|]. exists size. cbn. repeat split; [exact H|lia]. Qed.
 
-  Lemma nodup_snoc (l : list Z) x : NoDup l -> ~ In x l -> NoDup (l ++ [x]).
+  Lemma nodup_snoc {A} (l : list A) x : NoDup l -> ~ In x l -> NoDup (l ++ [x]).
   Proof.
     intros Hl Hx. apply NoDup_rev in Hl. rewrite <- (rev_involutive (l ++ [x])). apply NoDup_rev.
     rewrite rev_app_distr. cbn. constructor; [rewrite <- in_rev; exact Hx|exact Hl].
   Qed.
 
-  (* registering a tid never fails, keeps the invariant, keeps the place of every tid registered before and puts
-     a new tid at the end *)
-  Lemma register_ok s tid :
+  (* the list the new tid is appended to: the stored one, or the placeholder when the very first slice is a device slice *)
+  Definition base_of (dev : bool) (o : list (option Z)) : list (option Z) :=
+    match o with [] => if dev then [None] else [] | _ => o end.
+
+  Lemma base_of_props dev o tid :
+    NoDup o -> index_of tid o = None ->
+    NoDup (base_of dev o) /\ index_of tid (base_of dev o) = None /\
+    (forall x i, index_of x o = Some i -> index_of x (base_of dev o) = Some i) /\
+    (length (base_of dev o) <= Nat.max 1 (length o))%nat.
+  Proof.
+    intros Hnd Hi. destruct o as [|y r].
+    - destruct dev; cbn.
+      + split; [constructor; [intros []|constructor]|]. split; [reflexivity|]. split; [intros x i H; discriminate|lia].
+      + split; [constructor|]. split; [reflexivity|]. split; [intros x i H; discriminate|lia].
+    - cbn [base_of]. split; [exact Hnd|]. split; [exact Hi|]. split; [auto|cbn [length]; lia].
+  Qed.
+
+  (* registering a tid never fails, keeps the invariant, keeps the place of every tid registered before and gives
+     the new tid a place *)
+  Lemma register_ok s dev tid :
     wf s ->
-    exists s', t_register step s tid = Some s' /\ wf s' /\
+    exists s', t_register step s dev tid = Some s' /\ wf s' /\
                (forall x i, index_of x (t_orig s) = Some i -> index_of x (t_orig s') = Some i) /\
                (exists i, index_of tid (t_orig s') = Some i).
   Proof.
-    intros (Hnd & n & Hr & Hn & Hl). unfold t_register. cbv zeta.
+    intros (Hnd & n & Hr & Hn & Hl). unfold t_register.
     destruct (index_of tid (t_orig s)) as [i|] eqn:E.
-    - exists s. repeat split; [exact Hnd|exists n; auto|auto|exists i; exact E].
-    - rewrite Hr, ramp_length, app_length. cbn [length].
-      destruct (Nat.ltb_spec n (length (t_orig s) + 1)) as [Hlt|Hge].
-      + assert (Hn' : n = length (t_orig s)) by lia.
-        destruct n as [|m]; [lia|]. rewrite ramp_rev_S.
-        eexists. split; [reflexivity|]. cbn [t_orig t_remap]. split; [split; [apply nodup_snoc; [exact Hnd|apply index_of_none; exact E]|]|split].
-        * exists (S (S m)). rewrite (ramp_S start step (S m)). split; [|split; [lia|cbn [t_orig]; rewrite ?app_length; cbn [length]; lia]].
+    - exists s. split; [reflexivity|]. split; [split; [exact Hnd|exists n; auto]|]. split; [auto|exists i; exact E].
+    - fold (base_of dev (t_orig s)). cbv zeta.
+      destruct (base_of_props dev (t_orig s) tid Hnd E) as (Hnd0 & E0 & Hkeep0 & Hlen0).
+      set (o0 := base_of dev (t_orig s)) in *.
+      rewrite Hr, ramp_length, app_length. cbn [length].
+      assert (Hnd' : NoDup (o0 ++ [Some tid])) by (apply nodup_snoc; [exact Hnd0|apply index_of_none; exact E0]).
+      destruct (Nat.ltb_spec n (length o0 + 1)) as [Hlt|Hge].
+      + destruct n as [|m]; [lia|]. rewrite ramp_rev_S.
+        eexists. split; [reflexivity|]. cbn [t_orig t_remap]. split; [split; [exact Hnd'|]|split].
+        * exists (S (S m)). rewrite (ramp_S start step (S m)).
+          split; [|split; [lia|cbn [t_orig]; rewrite app_length; cbn [length]; lia]].
           replace (start + Z.of_nat m * step + step) with (start + Z.of_nat (S m) * step) by lia. reflexivity.
-        * intros x i Hx. apply index_of_app_l. exact Hx.
-        * exists (length (t_orig s)). apply index_of_app_new. exact E.
-      + eexists. split; [reflexivity|]. cbn [t_orig t_remap]. split; [split; [apply nodup_snoc; [exact Hnd|apply index_of_none; exact E]|]|split].
-        * exists n. split; [reflexivity|split; [exact Hn|cbn [t_orig]; rewrite ?app_length; cbn [length]; lia]].
-        * intros x i Hx. apply index_of_app_l. exact Hx.
-        * exists (length (t_orig s)). apply index_of_app_new. exact E.
+        * intros x i Hx. apply index_of_app_l, Hkeep0, Hx.
+        * exists (length o0). apply index_of_app_new. exact E0.
+      + eexists. split; [reflexivity|]. cbn [t_orig t_remap]. split; [split; [exact Hnd'|]|split].
+        * exists n. split; [reflexivity|split; [exact Hn|cbn [t_orig]; rewrite app_length; cbn [length]; lia]].
+        * intros x i Hx. apply index_of_app_l, Hkeep0, Hx.
+        * exists (length o0). apply index_of_app_new. exact E0.
   Qed.
 
-  Lemma step_ok s tid :
+  Lemma step_ok s dt :
     wf s ->
-    exists s' i, t_step step s tid = Some (s', start + Z.of_nat i * step) /\ wf s' /\
-                 index_of tid (t_orig s') = Some i /\
+    exists s' i, t_step step s dt = Some (s', start + Z.of_nat i * step) /\ wf s' /\
+                 index_of (snd dt) (t_orig s') = Some i /\
                  (forall x j, index_of x (t_orig s) = Some j -> index_of x (t_orig s') = Some j).
   Proof.
-    intros Hw. destruct (register_ok s tid Hw) as (s' & Hreg & Hw' & Hkeep & (i & Hi)).
-    exists s', i. unfold t_step. rewrite Hreg, Hi.
+    intros Hw. destruct dt as [dev tid]. destruct (register_ok s dev tid Hw) as (s' & Hreg & Hw' & Hkeep & (i & Hi)).
+    exists s', i. unfold t_step. cbn [fst snd]. rewrite Hreg, Hi.
     destruct Hw' as (Hnd & n & Hr & Hn & Hl).
     assert (Hlt : (i < n)%nat) by (apply index_of_some in Hi; lia).
     rewrite Hr, (ramp_nth start step n i Hlt).
@@ -138,7 +167,7 @@ Section Inv.
     wf s ->
     exists s' vs, t_run step s tids = Some (s', vs) /\ wf s' /\
       (forall x j, index_of x (t_orig s) = Some j -> index_of x (t_orig s') = Some j) /\
-      Forall2 (fun t v => exists i, index_of t (t_orig s') = Some i /\ v = start + Z.of_nat i * step) tids vs.
+      Forall2 (fun t v => exists i, index_of (snd t) (t_orig s') = Some i /\ v = start + Z.of_nat i * step) tids vs.
   Proof.
     induction tids as [|t r IH]; intros s Hw; cbn [t_run].
     - exists s, []. split; [reflexivity|]. split; [exact Hw|]. split; [auto|constructor].
@@ -159,8 +188,8 @@ Qed.
 
 Theorem tidmap_closed_form size start step tids s' vs :
   (0 < size)%nat -> t_run step (t_init size start step) tids = Some (s', vs) ->
-  NoDup (t_orig s') /\ (forall t, In t tids -> In t (t_orig s')) /\
-  Forall2 (fun t v => exists i, index_of t (t_orig s') = Some i /\ v = start + Z.of_nat i * step) tids vs.
+  NoDup (t_orig s') /\ (forall t, In t tids -> In (Some (snd t)) (t_orig s')) /\
+  Forall2 (fun t v => exists i, index_of (snd t) (t_orig s') = Some i /\ v = start + Z.of_nat i * step) tids vs.
 Proof.
   intros H Hv.
   destruct (run_ok start step tids _ (wf_init start step size H)) as (s2 & vs2 & Hr & Hw & _ & Hall).
@@ -183,7 +212,7 @@ Theorem tidmap_injective size start step tids vs i j t t' v v' :
   (0 < size)%nat -> tidmap_val size start step tids = Some vs ->
   nth_error tids i = Some t -> nth_error tids j = Some t' ->
   nth_error vs i = Some v -> nth_error vs j = Some v' ->
-  (t = t' -> v = v') /\ (step <> 0 -> v = v' -> t = t').
+  (snd t = snd t' -> v = v') /\ (step <> 0 -> v = v' -> snd t = snd t').
 Proof.
   intros H Hv Hi Hj Hvi Hvj. unfold tidmap_val in Hv.
   destruct (t_run step (t_init size start step) tids) as [[s' vs2]|] eqn:Hr; [|discriminate].
@@ -192,6 +221,90 @@ Proof.
   destruct (Forall2_nth _ _ _ _ _ _ Hall Hi Hvi) as (a & Ha & ->).
   destruct (Forall2_nth _ _ _ _ _ _ Hall Hj Hvj) as (b & Hb & ->).
   split.
-  - intros <-. rewrite Ha in Hb. injection Hb as <-. reflexivity.
+  - intros He. rewrite He in Ha. rewrite Ha in Hb. injection Hb as <-. reflexivity.
   - intros Hs He. assert (a = b) by nia. subst b. eapply index_of_inj; eassumption.
+Qed.
+
+(* ------------------------------------------------------------------ the first number of the range *)
+Lemma register_head step s dev tid s' :
+  t_register step s dev tid = Some s' ->
+  match t_orig s with
+  | [] => t_orig s = t_orig s' \/ nth_error (t_orig s') 0 = Some (if dev then None else Some tid)
+  | y :: _ => nth_error (t_orig s') 0 = Some y
+  end.
+Proof.
+  unfold t_register. destruct (index_of tid (t_orig s)) as [i|] eqn:E.
+  - intros H. injection H as <-. destruct (t_orig s); [left; reflexivity|reflexivity].
+  - cbv zeta. destruct (t_orig s) as [|y r] eqn:Eo.
+    + destruct dev; cbn [app length];
+        destruct (Nat.ltb _ _); try (destruct (rev (t_remap s)); [discriminate|]);
+        intros H; injection H as <-; right; reflexivity.
+    + destruct (Nat.ltb _ _); try (destruct (rev (t_remap s)); [discriminate|]);
+        intros H; injection H as <-; reflexivity.
+Qed.
+
+Lemma register_registers step s dev tid s' :
+  t_register step s dev tid = Some s' -> exists i, index_of tid (t_orig s') = Some i.
+Proof.
+  unfold t_register. destruct (index_of tid (t_orig s)) as [i|] eqn:E.
+  - intros H. injection H as <-. exists i. exact E.
+  - cbv zeta.
+    assert (E0 : index_of tid (match t_orig s with [] => if dev then [None] else [] | _ => t_orig s end) = None).
+    { destruct (t_orig s); [destruct dev; reflexivity|exact E]. }
+    set (o0 := match t_orig s with [] => if dev then [None] else [] | _ => t_orig s end) in *.
+    destruct (Nat.ltb _ _); try (destruct (rev (t_remap s)); [discriminate|]);
+      intros H; injection H as <-; cbn [t_orig]; exists (length o0); apply index_of_app_new; exact E0.
+Qed.
+
+Lemma step_head step s dt s' v :
+  t_step step s dt = Some (s', v) ->
+  match t_orig s with
+  | [] => nth_error (t_orig s') 0 = Some (if fst dt then None else Some (snd dt))
+  | y :: _ => nth_error (t_orig s') 0 = Some y
+  end.
+Proof.
+  unfold t_step. destruct (t_register step s (fst dt) (snd dt)) as [s1|] eqn:Hr; [|discriminate].
+  pose proof (register_head _ _ _ _ _ Hr) as Hh.
+  destruct (register_registers _ _ _ _ _ Hr) as (i & Ei). rewrite Ei.
+  destruct (nth_error (t_remap s1) i); [|discriminate]. intros H. injection H as <- _.
+  destruct (t_orig s) as [|y r]; [|exact Hh]. destruct Hh as [He|Hh]; [|exact Hh].
+  rewrite <- He in Ei. discriminate.
+Qed.
+
+Lemma run_head step : forall tids s s' vs y r,
+  t_orig s = y :: r -> t_run step s tids = Some (s', vs) -> nth_error (t_orig s') 0 = Some y.
+Proof.
+  induction tids as [|t tl IH]; intros s s' vs y r Ho H; cbn [t_run] in H.
+  - injection H as <- _. rewrite Ho. reflexivity.
+  - destruct (t_step step s t) as [[s1 v]|] eqn:Hs; [|discriminate].
+    destruct (t_run step s1 tl) as [[s2 vs2]|] eqn:Hr; [|discriminate]. injection H as <- _.
+    pose proof (step_head _ _ _ _ _ Hs) as Hh. rewrite Ho in Hh.
+    destruct (t_orig s1) as [|y1 r1] eqn:E1; [discriminate|]. cbn in Hh. injection Hh as ->.
+    eapply IH; eassumption.
+Qed.
+
+(* the repair of the lane-1000 defect: the first number of the range (the lane the host slices of a rank are merged
+   onto) goes to the tid of the very first slice of the run if that is a host slice, and to nobody otherwise: a device
+   stream that shows up first does not take it *)
+Theorem tidmap_first_number size start step tids vs i t v :
+  (0 < size)%nat -> step <> 0 -> tidmap_val size start step tids = Some vs ->
+  nth_error tids i = Some t -> nth_error vs i = Some v -> v = start ->
+  exists t0 r, tids = t0 :: r /\ fst t0 = false /\ snd t0 = snd t.
+Proof.
+  intros H Hs Hv Hi Hvi He. unfold tidmap_val in Hv.
+  destruct (t_run step (t_init size start step) tids) as [[s' vs2]|] eqn:Hr; [|discriminate].
+  cbn in Hv. injection Hv as ->.
+  destruct (tidmap_closed_form size start step tids s' vs H Hr) as (_ & _ & Hall).
+  destruct (Forall2_nth _ _ _ _ _ _ Hall Hi Hvi) as (a & Ha & Hva).
+  assert (a = 0%nat) by nia. subst a.
+  apply index_of_some in Ha. destruct Ha as [Ha _].
+  destruct tids as [|t0 r]; [destruct i; discriminate|].
+  exists t0, r. split; [reflexivity|].
+  cbn [t_run] in Hr.
+  destruct (t_step step (t_init size start step) t0) as [[s1 v1]|] eqn:Hs1; [|discriminate].
+  destruct (t_run step s1 r) as [[s2 vs3]|] eqn:Hr2; [|discriminate]. injection Hr as <- _.
+  pose proof (step_head _ _ _ _ _ Hs1) as Hh. cbn [t_init t_orig] in Hh.
+  destruct (t_orig s1) as [|y1 r1] eqn:E1; [discriminate|]. cbn in Hh. injection Hh as ->.
+  pose proof (run_head _ _ _ _ _ _ _ E1 Hr2) as Hh2. rewrite Ha in Hh2. injection Hh2 as Hh2.
+  destruct (fst t0); [discriminate|]. injection Hh2 as ->. split; reflexivity.
 Qed.
